@@ -74,3 +74,5 @@ for rd, nm in [(1, 'zt'), (2, 'bounded')]:
         desc='parseQuotedString through the %s reader == the same reference unescaper; no read beyond the terminator / size' % ('zero-terminated Reader<const char*>' if rd == 1 else 'BoundedReader<const char*>'), bound='either quote + all strings of 3 following bytes'))
     OBS.append(Ob(['C03'], 'sqs_n4_' + nm, un, 'harness/jd_str.c', 'h_sqs', defs=UR + ['NB=4'], unwind=8, fs='none', cap=300, hunwind=24,
         desc='skipQuotedString through the %s reader' % ('zero-terminated' if rd == 1 else 'bounded'), bound='either quote + all strings of 4 bytes'))
+OBS.append(Ob(['C03', 'C17'], 'pqs_u6_twice', 'jd', 'harness/jd_str.c', 'h_pqs_twice', defs=U + ['NB=7', 'PREFIX_U=1'], unwind=10, lunwind=PQS1, fs='none', cap=400, hunwind=40,
+    desc='parseQuotedString run twice on the same input (quote + \\\\u + 5 free bytes): identical code, length and decoded bytes - no dependence on uninitialised state, lone surrogates included', bound='all 2^40 continuations of "\\\\u'))
